@@ -330,6 +330,30 @@ func nestFamily(thorough bool) []nestCons {
 			sb.WriteString("g=f0([1])\n")
 			return sb.String()
 		}},
+		{name: "closure-clique", gen: func(d int) string {
+			// d closures of one function, each returning all of them: every one reaches every other
+			var sb strings.Builder
+			sb.WriteString("def outer():\n")
+			for i := 0; i < d; i++ {
+				fmt.Fprintf(&sb, " def f%d():\n  return (", i)
+				for j := 0; j < d; j++ {
+					fmt.Fprintf(&sb, "f%d,", j)
+				}
+				sb.WriteString(")\n")
+			}
+			sb.WriteString(" return f0\ng = outer()\n")
+			return sb.String()
+		}},
+		{name: "closure-diamonds", gen: func(d int) string {
+			// f_i refers to f_(i-1) twice: 2^d paths from the last closure to the first
+			var sb strings.Builder
+			sb.WriteString("def outer():\n f0 = lambda: 0\n")
+			for i := 1; i <= d; i++ {
+				fmt.Fprintf(&sb, " f%d = lambda: (f%d, f%d)\n", i, i-1, i-1)
+			}
+			fmt.Fprintf(&sb, " return f%d\ng = outer()\n", d)
+			return sb.String()
+		}},
 		{name: "if-nest", gen: blockNest("if 1:", "pass")},
 		{name: "if-elif-chain", gen: func(d int) string { return "if 0:\n pass\n" + rep("elif 0:\n pass\n", d) + "else:\n pass\n" }},
 		{name: "for-nest", gen: blockNest("for a in [1]:", "pass")},
